@@ -44,7 +44,10 @@ def carrier_case(draw, tier="quick"):
     t = REG()[tc["test"]]
     if t.timed and tc["test"] != "flat_line" and "t" in tc["case"] and draw(st.integers(0, 2)) == 0:
         # sub-second instants (multiples of 1/8 s): still the same logical times in every carrier that can hold them
-        tc["case"]["t"] = [v + draw(st.sampled_from([0.0, 0.125, 0.5, 0.875, 0.25])) for v in tc["case"]["t"]]
+        shifted_t = [v + draw(st.sampled_from([0.0, 0.125, 0.5, 0.875, 0.25])) for v in tc["case"]["t"]]
+        if all(b_ > a_ for a_, b_ in zip(shifted_t, shifted_t[1:])):
+            # (an axis that already has sub-second instants and one-second steps could lose its order)
+            tc["case"]["t"] = shifted_t
         tc["subsecond"] = True
     # a few random mixed carriers on top of the systematic one-at-a-time sweep
     tc["mixed"] = [{"data": draw(st.sampled_from(DATA_KINDS)), "aux": draw(st.sampled_from(DATA_KINDS)),
